@@ -1534,4 +1534,140 @@ pub mod verif_connection {
             self.agent.terminate().await;
         }
     }
+    // ---- C06 (BGP receiver): add-only extensions of the fixture above ----
+
+    /// What a connection left behind (see `Fixture::finish`).
+    pub struct Ended {
+        /// `None`: `handle_connection` had not returned when the time was
+        /// up (the task was then aborted); `Some(Ok(()))`: it returned;
+        /// `Some(Err(msg))`: its task panicked.
+        pub outcome: Option<Result<(), String>>,
+        pub updates: Vec<Update>,
+        pub live: Vec<(IpAddr, Asn)>,
+    }
+
+    /// As `start`, with the peer's configuration spelled out: `remote_asn`
+    /// (`None` = any AS, which makes the candidate configuration inexact
+    /// and switches DelayOpen on, as in `handle_connection`), `hold_time`,
+    /// and keys that `live_sessions` holds already (earlier sessions).
+    pub async fn start_with(
+        stream: TcpStream,
+        peer: IpAddr,
+        ingress_id: ingress::IngressId,
+        remote_asn: Option<u32>,
+        hold_time: Option<u16>,
+        pre_live: Vec<(IpAddr, Asn)>,
+    ) -> Fixture {
+        let (gate, mut agent) = Gate::new(0);
+        let recorder = Arc::new(Recorder::default());
+        let target: Arc<dyn AnyDirectUpdate> = recorder.clone();
+        let link = subscribe(&gate, &mut agent, &target).await;
+        let asn = match remote_asn {
+            Some(a) => format!("{a}"),
+            None => "[]".to_string(),
+        };
+        let hold = match hold_time {
+            Some(h) => format!("hold_time = {h}\n"),
+            None => String::new(),
+        };
+        let unit_cfg: BgpTcpIn = toml::from_str(&format!(
+            "listen = \"127.0.0.1:0\"\nmy_asn = 65000\nmy_bgp_id = [1, 1, 1, 1]\n[peers.\"{peer}\"]\nname = \"verif\"\nremote_asn = {asn}\n{hold}"
+        ))
+        .expect("unit config");
+        let (remote_net, peer_config) = unit_cfg
+            .peer_configs
+            .get(peer)
+            .map(|(k, c)| (k, c.clone()))
+            .expect("peer is configured");
+        let live_sessions =
+            Arc::new(Mutex::new(std::collections::HashMap::new()));
+        {
+            let mut live = live_sessions.lock().unwrap();
+            for key in pre_live {
+                let (tx, _) = mpsc::channel(1);
+                let (pdu_tx, _) = mpsc::channel(1);
+                live.insert(key, (tx, pdu_tx));
+            }
+        }
+        let (cmds_tx, cmds_rx) = mpsc::channel(10 * 10);
+        let connection = tokio::spawn(handle_connection(
+            None,
+            gate.clone(),
+            unit_cfg.clone(),
+            stream,
+            CombinedConfig::new(unit_cfg.clone(), peer_config, remote_net),
+            cmds_tx,
+            cmds_rx,
+            Default::default(),
+            live_sessions.clone(),
+            Default::default(),
+            ingress_id,
+        ));
+        let unit = tokio::spawn(async move {
+            while gate.process().await.is_ok() {}
+            drop(gate);
+        });
+        Fixture {
+            recorder,
+            _target: target,
+            _link: link,
+            agent,
+            live_sessions,
+            connection,
+            unit,
+        }
+    }
+
+    impl Fixture {
+        /// Waits until `handle_connection` has returned (or its task has
+        /// died) or `timeout` has passed - then the task is aborted -,
+        /// terminates the unit and says what was left behind.
+        pub async fn finish(self, timeout: std::time::Duration) -> Ended {
+            let Fixture {
+                recorder,
+                _target,
+                _link,
+                agent,
+                live_sessions,
+                mut connection,
+                unit,
+            } = self;
+            let outcome =
+                match tokio::time::timeout(timeout, &mut connection).await {
+                    Ok(Ok(())) => Some(Ok(())),
+                    Ok(Err(e)) if e.is_panic() => {
+                        let p = e.into_panic();
+                        let msg = if let Some(s) = p.downcast_ref::<&str>() {
+                            s.to_string()
+                        } else if let Some(s) = p.downcast_ref::<String>() {
+                            s.clone()
+                        } else {
+                            "?".to_string()
+                        };
+                        Some(Err(msg))
+                    }
+                    Ok(Err(_)) => Some(Err("cancelled".to_string())),
+                    Err(_) => {
+                        connection.abort();
+                        let _ = connection.await;
+                        None
+                    }
+                };
+            let updates = recorder.0.lock().unwrap().clone();
+            let mut live: Vec<(IpAddr, Asn)> =
+                live_sessions.lock().unwrap().keys().copied().collect();
+            live.sort();
+            agent.terminate().await;
+            let _ = tokio::time::timeout(
+                std::time::Duration::from_millis(200),
+                unit,
+            )
+            .await;
+            Ended {
+                outcome,
+                updates,
+                live,
+            }
+        }
+    }
 }
